@@ -206,6 +206,29 @@ def kf47(filters, datas) -> bool:
     return not RC.inflate64_roundtrips(data)
 
 
+def kf49(filters, datas) -> bool:
+    """KF-49 (open, dependency): the bcj library's streaming x86 decoder leaves an E8/E9 sequence in the last five bytes of the
+    stream unconverted when the stream reaches it in pieces.  True iff the chain runs X86 through that library (any main codec
+    but LZMA2) and the library, fed this folder's filtered stream byte by byte, disagrees with its own one-shot result."""
+    if not filters:
+        return False
+    ids = [f["id"] for f in filters]
+    if 4 not in ids or G.F_LZMA2 in ids:
+        return False
+    try:
+        import bcj
+
+        data = b"".join(bytes(d) for d in datas)
+        e = bcj.BCJEncoder()
+        enc = e.encode(data) + e.flush()
+        one = bcj.BCJDecoder(len(enc)).decode(enc)
+        d = bcj.BCJDecoder(len(enc))
+        piecewise = b"".join(d.decode(enc[i:i + 1]) for i in range(len(enc)))
+        return piecewise != one
+    except Exception:
+        return False
+
+
 def tag_kf47(out, pairs):
     """pairs: [(filters, [member bytes of that folder in order])].  Marks every violation of a case in which KF-47 applies."""
     if out is None or not getattr(out, "violations", None):
@@ -217,4 +240,11 @@ def tag_kf47(out, pairs):
     if hit:
         for v in out.violations:
             v["signature"]["kf47"] = True
+    try:
+        hit49 = any(kf49(f, d) for f, d in pairs)
+    except Exception:
+        hit49 = False
+    if hit49:
+        for v in out.violations:
+            v["signature"]["kf49"] = True
     return out
